@@ -375,6 +375,20 @@ def run_path(spec, case, decisions, concrete=None):
         res.dropped = True
     except Undecided as u:
         res.undecided = str(u)
+    try:
+        hyp_fn = getattr(spec, "hypotheses", None)
+    except Exception:
+        hyp_fn = None
+    if hyp_fn is not None:
+        # hypotheses used only when discharging (kept out of the path solver); they may be instantiated per obligation
+        for ob in path.obligations:
+            try:
+                extra = hyp_fn(I, a, ob)
+            except Exception:
+                extra = None
+            if extra:
+                ob.hyps = list(ob.hyps) + list(extra)
+        path.assumed.append(("hypothesis:" + spec.name, None))
     res.obligations = path.obligations
     res.assumed = path.assumed
     res.notes = path.notes
